@@ -9,11 +9,7 @@ HERE = os.path.dirname(os.path.dirname(os.path.abspath(__file__)))
 sys.path.insert(0, HERE)
 
 ALL = ["C%02d" % i for i in range(1, 21)]
-NA_REASONS = {
-    "C19": "which tables FIFO drops is arithmetic over run-time table sizes, referenced blob bytes and the wall clock; "
-           "no static argument in reach bounds it. The structural part (drop = publish then delete) is decided under "
-           "C05.c / C20 (DESIGN.md §3 C19).",
-}
+NA_REASONS = {}
 TECH = "static analysis: repository-specific MIR/HIR rules over facts from a rustc_private driver"
 
 checks = []
